@@ -213,33 +213,35 @@ def decide_and_report(pid, tier, seed, cfg, report, scratch):
         exit_code = 1
     # thorough tier: the replay grids of the property's operations are ALSO run on the real code (bounded exploration next
     # to the proofs: it cross-checks the executable mirror of the specification against the code the proofs are about)
-    if tier == 'thorough' and exit_code == 0 and cfg.get('standin_ops'):
+    # quick tier: only the grids a property names as cheap enough for every change (`quick_grids`)
+    grid_ops = cfg.get('standin_ops') if tier == 'thorough' else cfg.get('quick_grids')
+    if exit_code == 0 and grid_ops:
         grid_known = []
         grids_ran = True
         try:
-            w, cases = witness_mod.standin(pid, cfg['standin_ops'], REPO, scratch, known=known, known_hits=grid_known)
+            w, cases = witness_mod.standin(pid, grid_ops, REPO, scratch, known=known, known_hits=grid_known)
             if cases == 0:
                 raise RuntimeError('the replay grids reported no cases at all')
         except Exception as e:
             w, cases = None, 0
             grids_ran = False
-            lines.append(f'UNDECIDED property={pid} the replay grids of the thorough tier could not run: {str(e)[:1500]}')
+            lines.append(f'UNDECIDED property={pid} the replay grids of the {tier} tier could not run: {str(e)[:1500]}')
             exit_code = 2
         for kw in grid_known:
             lines.append(f'KNOWN-FINDING: property={pid} grid {kw["op"]} {kw["known"].get("witness", "")} observed={kw.get("observed")} -- {kw["known"].get("what", "")}')
         report['grid_known'] = [dict(op=kw['op'], input_digest=witness_mod.input_digest(kw['op'], kw['input']), observed=kw.get('observed'), witness=kw['known'].get('witness', '')) for kw in grid_known]
-        report['bounded'].append(dict(id=f'grids[{pid}]', bound=f'replay grids of {len(cfg["standin_ops"])} operations, {cases} cases', status='failed' if w else ('could not run' if not grids_ran else ('agree apart from recorded open findings' if grid_known else 'agree')),
-                                      kind='bounded', fn='replay grids (thorough tier)'))
+        report['bounded'].append(dict(id=f'grids[{pid}]', bound=f'replay grids of {len(grid_ops)} operations, {cases} cases', status='failed' if w else ('could not run' if not grids_ran else ('agree apart from recorded open findings' if grid_known else 'agree')),
+                                      kind='bounded', fn=f'replay grids ({tier} tier)'))
         if w:
             rp = os.path.join(OUT, 'replays', f'{pid}-grid.json')
             with open(rp, 'w') as f:
-                json.dump(dict(property=pid, obligation=f'replay grid (thorough tier, bounded): {w["op"]}', counterexample=w, replayed=w.get('replayed'), repo=REPO, bounded=True), f, indent=1)
+                json.dump(dict(property=pid, obligation=f'replay grid ({tier} tier, bounded): {w["op"]}', counterexample=w, replayed=w.get('replayed'), repo=REPO, bounded=True), f, indent=1)
             lines.append(f'VIOLATION property={pid} replay={rp}')
             lines.append(f'  replay grid (bounded): op {w["op"]} witness={_short(json.dumps(w.get("input")))} observed={w.get("observed")} expected={w.get("expected")}')
             standin_v.append(dict(id=f'grid[{pid}]:{w["op"]}', status='failed'))
             exit_code = 1
         elif grids_ran:
-            lines.append(f'  replay grids (bounded, thorough tier): {cases} cases of {len(cfg["standin_ops"])} operations agree with the specification' + (f' apart from {len(grid_known)} recorded open finding(s)' if grid_known else ''))
+            lines.append(f'  replay grids (bounded, {tier} tier): {cases} cases of {len(grid_ops)} operations agree with the specification' + (f' apart from {len(grid_known)} recorded open finding(s)' if grid_known else ''))
     if tier != 'thorough':
         # open findings of the bounded grids are only re-run by the thorough tier; the quick tier still lists them
         for k in known:
